@@ -68,6 +68,15 @@ class oset(collections.abc.MutableSet):
         self.discard(key)
         return key
 
+    def copy(self):
+        """
+        new oset with the same elements in the same order; without it copy.copy()
+        returns an oset that shares the linked list and the map with this one
+        """
+        return self.__class__(self)
+
+    __copy__ = copy
+
     def __repr__(self):
         if not self:
             return '%s()' % (self.__class__.__name__,)
